@@ -441,6 +441,12 @@ func (c *consumerGroup) removeConsumer(cons *consumer) {
 				heap.Remove(subscribers, i)
 			}
 		}
+		// A stream nobody subscribes to is the same as a stream the group
+		// never knew: the group's state must only depend on its members.
+		if subscribers.Len() == 0 {
+			delete(c.subscribers, stream)
+			return
+		}
 		// Rebalance the stream if the consumer being removed had assignments
 		// for it.
 		if _, ok := cons.assignments[stream]; ok {
